@@ -21,6 +21,7 @@ RULE = (
     "and dictionary. H: every history up to the depth bound over {set_option x4, set_config_block x4, as_dict, "
     "properties, as_text} on one live C2Profile; after each history as_dict() must equal that of a freshly parsed "
     "reference rendering. non-trivial = the sentence / history contains at least one statement / modification"
+    '. Added: builder equivalence through keyword arguments in statement order (incl. dictionary key order), bytes values, repeated pair names, shared block objects, variant capitalisations, the file entry point, a missing-key read event, two/three profiles parsed from the same text. '
 )
 ASSUMPTIONS = [
     "modifications are made through the C2Profile object (editing a retained sub-block after a dictionary/text access is aliasing, not a modification of the profile)",
